@@ -101,14 +101,15 @@ def plan(ctx: Ctx):
                                                  "invalidate_cache", "U:em_no_pairs", "U:compare_two_missing_columns"),
                     lambda sc: 2))
     else:
+        # every fault point of every scenario on every (backend, link type, retain) combination; the primary
+        # combination twice with different data / parameters
         i = 0
         for backend in ("duckdb", "sqlite"):
             for lt in ("dedupe_only", "link_only"):
                 for retain in (False, True):
-                    first = (backend, lt) == ("duckdb", "dedupe_only")
-                    out.append((X.gen_config(rng, backend, lt, retain, i), lambda sc: True,
-                                (lambda sc: 1) if first else (lambda sc: 3 if sc["heavy"] else (1 if sc["name"] in CORE or sc["user"] else 2))))
-                    i += 1
+                    for _rep in range(2 if (backend, lt) == ("duckdb", "dedupe_only") else 1):
+                        out.append((X.gen_config(rng, backend, lt, retain, i), lambda sc: True, lambda sc: 1))
+                        i += 1
     return out
 
 
